@@ -526,3 +526,99 @@ def r11(R):
     R.count(stats)
     for v in vs:
         R.violation(v.node, v.message, g, v.path)
+
+
+# ----------------------------------------------------------------- C16.R12
+@rule('C16.R12', 'a base revision that is open-ended in the base is passed '
+      'on open-ended only when the bound is the maximal tid; for every other '
+      'bound its end is looked up in the changes (a bound equal to the '
+      'changes\' last transaction still excludes that transaction)',
+      props=['C04', 'C15'], min_instances=1)
+def r12(R):
+    ds = R.prog.cls(DS)
+    f = R.method(ds, 'loadBefore')
+    g, b, F = R.cfg(f, ds, max_depth=0)
+    bound = [p for p in f.params if p != 'self'][1]
+    # locals that receive the base's answer
+    res = set()
+    for s in walk_local(f.node):
+        if isinstance(s, ast.Assign) and isinstance(s.value, ast.Call) and \
+                dotted(s.value.func) == ('self', 'base', 'loadBefore'):
+            res |= {t.id for t in s.targets if isinstance(t, ast.Name)}
+    R.require(res, 'DemoStorage.loadBefore no longer asks the base')
+    seen = [0]
+
+    def open_ended_test(e):
+        """`not X[-1]` / `X[-1] is None` for a base answer X -> polarity of
+        'is open-ended' when the expression is true, else None"""
+        if isinstance(e, ast.Subscript) and isinstance(
+                e.value, ast.Name) and e.value.id in res:
+            i = e.slice
+            if isinstance(i, ast.UnaryOp) and isinstance(
+                    i.op, ast.USub) and isinstance(
+                        i.operand, ast.Constant) and i.operand.value == 1:
+                return False          # X[-1] true  => has an end
+            if isinstance(i, ast.Constant) and i.value == 2:
+                return False
+        if isinstance(e, ast.Compare) and len(e.ops) == 1 and isinstance(
+                e.comparators[0], ast.Constant) and \
+                e.comparators[0].value is None:
+            inner = open_ended_test(e.left)
+            if inner is False:
+                return isinstance(e.ops[0], ast.Is)
+        return None
+
+    def edge(node, st, lab, tgt):
+        if node.kind == 'test' and lab in ('T', 'F'):
+            for e, truth in implied_atoms(node.ast, lab):
+                pol = open_ended_test(e)
+                if pol is not None and st == 'base':
+                    if pol == truth:
+                        st = 'open'
+                    else:
+                        st = 'ended'
+                if st == 'open' and isinstance(e, ast.Compare) and \
+                        len(e.ops) == 1 and isinstance(e.ops[0],
+                                                       (ast.Eq, ast.NotEq)):
+                    names = set()
+                    for x in (e.left, e.comparators[0]):
+                        d_ = dotted(x)
+                        if d_:
+                            names.add(d_[-1])
+                    if bound in names and 'maxtid' in names and \
+                            isinstance(e.ops[0], ast.Eq) == truth:
+                        st = 'open-max'
+        if lab in ('e', 'eb'):
+            return st
+        for op in F.ops(node):
+            if op.kind == 'store' and op.path and op.path[0] == '%local' \
+                    and op.path[1] in res:
+                v = op.stmt.value if isinstance(op.stmt, ast.Assign) else None
+                if isinstance(v, ast.Call) and dotted(v.func) == (
+                        'self', 'base', 'loadBefore'):
+                    st = 'base'
+                else:
+                    st = 'patched'
+        return st
+
+    def at(node, st):
+        if node.kind == 'return' and isinstance(node.ast.value, ast.Name) \
+                and node.ast.value.id in res:
+            seen[0] += 1
+            if st == 'open':
+                return Violation(
+                    'DemoStorage.loadBefore returns the base\'s open-ended '
+                    'revision as it is for a bound that is not known to be '
+                    'the maximal tid: when the changes hold a later '
+                    'revision (first written by the transaction the bound '
+                    'names) the answer must end there -- validity intervals '
+                    'of the two layers overlap')
+        return st
+
+    vs, stats = explore(g, 'start', at=at, edge=edge)
+    R.count(stats)
+    R.instance('DemoStorage.loadBefore', base_answers=sorted(res))
+    R.require(seen[0] or vs, 'DemoStorage.loadBefore no longer returns the '
+              'base\'s answer')
+    for v in vs:
+        R.violation(v.node, v.message, g, v.path)
